@@ -1274,6 +1274,8 @@ func (p *Parser) wordPart() WordPart {
 		if ar.Bracket {
 			if p.tok != rightBrack {
 				if p.recoverError() {
+					p.postNested(old)
+					p.eqlOffs = 0 // see arithmEnd
 					ar.Right = recoveredPos
 					return ar
 				}
